@@ -44,6 +44,20 @@ pub enum Part {
     All,
     Half,
     One,
+    /// 2^128 - x: an amount whose two's-complement reading is +x. The program must refuse it (LiquidityTooHigh) — a must-fail
+    /// self-loop on the pinned tree; a tree that converts it to a signed delta carelessly turns the withdrawal into a deposit
+    Wrap(u64),
+}
+impl Part {
+    /// the liquidity amount the instruction is given when the position currently holds `cur`
+    pub fn amount(&self, cur: u128) -> u128 {
+        match self {
+            Part::All => cur,
+            Part::Half => cur / 2,
+            Part::One => 1.min(cur),
+            Part::Wrap(x) => (*x as u128).wrapping_neg(),
+        }
+    }
 }
 
 #[derive(Clone, Debug, PartialEq, Eq, Hash, Serialize, Deserialize, PartialOrd, Ord)]
@@ -55,6 +69,16 @@ pub enum Op {
         v2: bool,
     },
     Dec { pos: u8, part: Part, v2: bool },
+    /// increase_liquidity naming, for the lower / upper bound, the tick array `shift` arrays away from the one that holds the tick
+    /// (0 = the right one). Any non-zero shift must be refused: the named array does not contain the tick.
+    IncTa {
+        pos: u8,
+        #[serde(with = "u128_str")]
+        liq: u128,
+        lower_shift: i8,
+        upper_shift: i8,
+        v2: bool,
+    },
     Swap { a_to_b: bool, exact_in: bool, amount: u64, lim: Lim, v2: bool },
     Update { pos: u8 },
     /// reposition_liquidity_v2: move the position to [lower, upper) with the given new liquidity
@@ -163,7 +187,7 @@ pub fn resolve_limit(l: &Ledger, p: &PoolRef, a_to_b: bool, lim: Lim) -> u128 {
 /// Build the instruction for an op in the given state (None = op not applicable, e.g. Dec of an empty position).
 pub fn build(l: &Ledger, w: &StdWorld, op: &Op) -> Option<Instruction> {
     let pos_of = |op: &Op| match op {
-        Op::Inc { pos, .. } | Op::Dec { pos, .. } | Op::Update { pos } | Op::CollectFees { pos, .. } | Op::CollectReward { pos, .. } | Op::Repos { pos, .. } => Some(*pos),
+        Op::Inc { pos, .. } | Op::IncTa { pos, .. } | Op::Dec { pos, .. } | Op::Update { pos } | Op::CollectFees { pos, .. } | Op::CollectReward { pos, .. } | Op::Repos { pos, .. } => Some(*pos),
         _ => None,
     };
     if let Some(p) = pos_of(op) {
@@ -176,6 +200,7 @@ pub fn build(l: &Ledger, w: &StdWorld, op: &Op) -> Option<Instruction> {
     let op = &match op.clone() {
         Op::Inc { pos, liq, v2 } => Op::Inc { pos, liq, v2: v2 || force_v2 },
         Op::Dec { pos, part, v2 } => Op::Dec { pos, part, v2: v2 || force_v2 },
+        Op::IncTa { pos, liq, lower_shift, upper_shift, v2 } => Op::IncTa { pos, liq, lower_shift, upper_shift, v2: v2 || force_v2 },
         Op::Swap { a_to_b, exact_in, amount, lim, v2 } => Op::Swap { a_to_b, exact_in, amount, lim, v2: v2 || force_v2 },
         Op::CollectFees { pos, v2 } => Op::CollectFees { pos, v2: v2 || force_v2 },
         Op::CollectProtocol { v2 } => Op::CollectProtocol { v2: v2 || force_v2 },
@@ -187,15 +212,37 @@ pub fn build(l: &Ledger, w: &StdWorld, op: &Op) -> Option<Instruction> {
         Op::Dec { pos, part, v2 } => {
             let p = &w.positions[*pos as usize].at(l);
             let cur = p.state(l).liquidity;
-            let amt = match part {
-                Part::All => cur,
-                Part::Half => cur / 2,
-                Part::One => 1.min(cur),
-            };
+            let amt = part.amount(cur);
             if amt == 0 {
                 return None;
             }
             Some(world::ix_decrease(p, &w.lp, amt, 0, 0, *v2))
+        }
+        Op::IncTa { pos, liq, lower_shift, upper_shift, v2 } => {
+            let p = &w.positions[*pos as usize].at(l);
+            let mut ix = world::ix_increase(p, &w.lp, *liq, u64::MAX, u64::MAX, *v2);
+            let span = p.pool.ticks_in_array();
+            let (lo, hi) = (p.ta_lower(), p.ta_upper());
+            let lo2 = p.pool.tick_array(p.pool.array_start(p.lower) + *lower_shift as i32 * span);
+            let hi2 = p.pool.tick_array(p.pool.array_start(p.upper) + *upper_shift as i32 * span);
+            // the two tick-array metas are the last two accounts of the increase instructions that equal the position's arrays
+            let n = ix.accounts.len();
+            let (mut il, mut iu) = (None, None);
+            for i in (0..n).rev() {
+                if iu.is_none() && ix.accounts[i].pubkey == hi {
+                    iu = Some(i);
+                } else if il.is_none() && ix.accounts[i].pubkey == lo {
+                    il = Some(i);
+                }
+            }
+            match (il, iu) {
+                (Some(a), Some(b)) => {
+                    ix.accounts[a].pubkey = lo2;
+                    ix.accounts[b].pubkey = hi2;
+                    Some(ix)
+                }
+                _ => None,
+            }
         }
         Op::Swap { a_to_b, exact_in, amount, lim, v2 } => {
             let st = w.pool.state(l);
